@@ -13,11 +13,12 @@ Every case is judged four ways:
 * correspondence: impl == model N on every case, accepted or rejected, incl. which `raise` site fired;
   model B == truth (validates the specification `bind` the theorems are stated against).
 
-Enumeration is EXHAUSTIVE: every signature Python accepts with <= 4 (quick) / <= 5 (thorough) parameters
-over 5 kinds x default/no default; for each, every number of positionals 0..P+2 x every subset of
-keywords among all parameter names (also positional-only and variadic ones) + two unknown names.
-Thorough adds bound methods (self positional-or-keyword / positional-only) and random 6-8 parameter
-signatures.
+Enumeration is EXHAUSTIVE: every signature Python accepts with <= 4 (quick) / <= 6 (thorough) parameters
+over 5 kinds x default/no default (427 / 3547 signatures); for each, every number of positionals 0..P+2 x
+every subset of keywords among all parameter names (also positional-only and variadic ones) + two unknown
+names. Bound methods (self positional-or-keyword / positional-only, `self=` among the keywords): <= 2
+(quick) / <= 5 (thorough) further parameters; thorough adds random 6-8 parameter signatures.
+Measured: quick ~2 s, thorough ~45 s wall on 16 cores (1.3e5 / 4.7e6 cases).
 """
 
 import collections
@@ -339,7 +340,8 @@ def judge(res, sig, self_kind, args, kwargs, ignore, expected, expected_full, in
     res.count("ignore=" + ("[]" if not ignore else "valid" if expected is not None and accepted else "other"))
     res.count("impl:" + (impl if impl.startswith("err") else "ok"))
     if not accepted and not impl.startswith("err"):
-        res.count("rejected-call-accepted-by-filter_args(lenient, outside the property)")
+        # outside the property; which Python error filter_args lets through (model `bind` names the first one)
+        res.count("lenient-on-rejected-call:" + m_bind[4:])
     if insp != "agree":
         res.count("inspect_bind_disagrees_with_call:" + insp)
     if accepted and (sig or self_kind):
@@ -522,7 +524,7 @@ def run(ctx):
         c = ctx.replay.get("case", {})
         return run_cases(ctx, [(c["sig"], c.get("method"), c.get("args", []), c.get("kwargs", {}), c.get("ignore", []))])
     if ctx.thorough:
-        return explore(ctx, 5, 4, 400)
+        return explore(ctx, 6, 5, 400)
     return explore(ctx, 4, 2, 0)
 
 
